@@ -183,7 +183,12 @@ def r3_fast_path(repo: Repo, rep):
         g = bw.params[1]
         need = {0: ({g, "weight"}, {"input"}), 1: ({g, "input"}, {"weight"}), 2: ({g}, {"weight", "input"})}
         for k, el in enumerate(r.elts):
-            guard = [pol for gg, pol, kk in p.guards if f"ctx.needs_input_grad[{k}]" in dump(gg)]
+            import re as _re
+            gpat = _re.compile(r"ctx\.needs_input_grad(\[:\d*\])?\[%d\]" % k)
+            guard = [pol for gg, pol, kk in p.guards if gpat.search(dump(gg).replace(" ", ""))]
+            if not guard and isinstance(el, ast.IfExp) and gpat.search(dump(el.test).replace(" ", "")) and dump(el.orelse) == "None":
+                # conditional expression form: `<gradient> if ctx.needs_input_grad[k] else None`
+                guard, el = [True], el.body
             if not guard:
                 # not computed at all on this path (e.g. no bias): nothing to guard
                 rep.check(R, dump(el) == "None", bw.site(p.ret_node), bw.fq, f"gradient {k} guarded by ctx.needs_input_grad[{k}]", f"no such guard, gradient is {dump(el)[:50]}", f"grad {k} unguarded")
@@ -521,8 +526,118 @@ def r8_no_inplace_state(repo: Repo, rep):
         rep.undecided(R, "src/torchphysics/models/deeponet", "-", "forward methods", "none found")
 
 
+def r9_collection_batch(repo: Repo, rep):
+    R = rep.rule("R-C09-9", "a FunctionSetCollection's function batch is the concatenation of its sets' batches in collection order, whatever the sets' sizes - "
+                 "by partial evaluation on sets of 3, 2 and 4 functions", floor=2,
+                 why="writing the sub-batches at offset i * len(batch) assumes equally sized sets: with sizes 3 and 2 the second set overwrites a function of the first and the last row stays uninitialised")
+    from ..absdom.listeval import Evaluator, Model, NotEval, Opaque, UNKNOWN
+    ci = repo.cls("problem.domains.functionsets.functionset.FunctionSetCollection")
+    fi = ci.methods.get("create_function_batch")
+    if fi is None:
+        raise AnalysisError("FunctionSetCollection.create_function_batch vanished")
+    rep.saw(fi)
+
+    class Tensor(list):
+        """rows of a tensor, known by their labels; None = uninitialised memory"""
+
+    class Rows(Model):
+        def __init__(self, rows):
+            self.rows = list(rows)
+
+        def le_getattr(self, name):
+            if name in ("as_tensor", "_t"):
+                return Tensor(self.rows)
+            if name == "space":
+                return Opaque("space")
+            raise NotEval(name)
+
+        def le_binop(self, op, other, reflected):
+            if isinstance(op, ast.BitOr) and isinstance(other, Rows):
+                return Rows((other.rows + self.rows) if reflected else (self.rows + other.rows))
+            raise NotEval("operator on a function batch")
+
+        def le_len(self):
+            return len(self.rows)
+
+    class FSet(Model):
+        def __init__(self, tag, n):
+            self.tag, self.n = tag, n
+
+        def le_call(self, method, args, kws):
+            if method == "create_function_batch":
+                return Rows(f"{self.tag}{k}" for k in range(self.n))
+            raise NotEval(method)
+
+        def le_len(self):
+            return self.n
+
+    class Coll(Model):
+        def __init__(self, sets):
+            self.sets = sets
+
+        def le_getattr(self, name):
+            if name == "collection":
+                return list(self.sets)
+            if name == "function_space":
+                return Opaque("function_space")
+            raise NotEval(name)
+
+        def le_len(self):
+            return sum(x.n for x in self.sets)
+
+    def resolve(e, ev, f):
+        if isinstance(e, ast.Attribute) and e.attr == "shape":
+            try:
+                b = ev.ev(e.value, f)
+            except NotEval:
+                return None
+            if isinstance(b, Tensor):
+                return (len(b), 4, 1)
+        if isinstance(e, ast.Attribute) and dump(e).endswith("output_space"):
+            return Opaque("output_space")
+        return None
+
+    def on_call(e, name, args, kws, ev, f):
+        if name in ("functools.reduce", "reduce") and len(e.args) in (2, 3) and dump(e.args[0]) in ("operator.or_", "operator.__or__", "lambda a, b: a | b"):
+            seq = ev.ev(e.args[1], f)
+            acc = ev.ev(e.args[2], f) if len(e.args) == 3 else None
+            if not isinstance(seq, (list, tuple)):
+                return None
+            for x in seq:
+                acc = x if acc is None else ev.binop(acc, ast.BitOr(), x)
+            return acc
+        if name == "Points.empty":
+            return Rows([])
+        if name == "Points" and args:
+            if isinstance(args[0], Tensor):
+                return Rows(list(args[0]))
+            return None
+        if isinstance(e.func, ast.Attribute) and e.func.attr in ("new_empty", "new_zeros") and args:
+            shp = args[0] if isinstance(args[0], (tuple, list)) else args
+            if shp and isinstance(shp[0], int):
+                return Tensor([None] * shp[0])
+        if name in ("torch.empty", "torch.zeros") and args:
+            shp = args[0] if isinstance(args[0], (tuple, list)) else args
+            if shp and isinstance(shp[0], int):
+                return Tensor([None] * shp[0])
+        if name in ("torch.cat",) and args and isinstance(args[0], (list, tuple)) and all(isinstance(x, Tensor) for x in args[0]):
+            return Tensor([r for x in args[0] for r in x])
+        return None
+    for sizes in ((3, 2), (2, 2), (1, 3, 4)):
+        sets = [FSet("abc"[i], n) for i, n in enumerate(sizes)]
+        fr = Evaluator(resolve, on_call).run(fi.node.body, {"self": Coll(sets), fi.params[1]: Opaque("points")})
+        want = [f"{'abc'[i]}{k}" for i, n in enumerate(sizes) for k in range(n)]
+        label = f"sets of {sizes} functions: the batch lists {want}"
+        got = fr.ret
+        if not isinstance(got, Rows):
+            rep.undecided(R, fi.site(), fi.fq, label + " (evaluable)", repr(got)[:80])
+            continue
+        rep.check(R, got.rows == want, fi.site(), fi.fq, label, f"{got.rows}", f"sizes {sizes}: {got.rows}")
+
+
 def run(repo: Repo, rep):
     r8_no_inplace_state(repo, rep)
+    r9_collection_batch(repo, rep)
     from .generic import g_arg_constructor_parameters
     g_arg_constructor_parameters(repo, rep, lambda m: ".models.deeponet" in m or ".functionsets" in m, floor=10,
                                  why="a trunk net that does not pass `trunk_input_copied` on keeps the fast path for inputs that are not copies of one location set")
@@ -533,6 +648,8 @@ def run(repo: Repo, rep):
     r4_branch_cache(repo, rep)
     r4b_fix_always(repo, rep)
     r5_meshgrid(repo, rep)
+    from .c04 import r8_per_function_points  # identical first and second derivatives w.r.t. the inputs: every input function differentiates its own copy of the locations
+    r8_per_function_points(repo, rep)
 
 
 _DN = "src/torchphysics/models/deeponet/deeponet.py"
